@@ -167,7 +167,12 @@ def vary_step(rng, st, geo):
     os0 = st.get('os', geo['os'])
     what = rng.choice(['os', 'os', 'shape', 'scratch', 'same'])
     if what == 'os':
-        os1 = rng.choice([o for o in (1, 2, 3) if o != os0])
+        big = [o for o in (1, 2, 3) if o != os0 and
+               int((st['_N'] + Fraction(st['_delta'])) * o / os0) >= max(len(st['amp']), len(st['amp'][0])) + 1]
+        if not big:
+            what = 'shape'
+    if what == 'os':
+        os1 = rng.choice(big)
         v['os'] = os1
         N1 = int((st['_N'] + Fraction(st['_delta'])) * os1 / os0 + Fraction(1, 2))
         v['_N'] = max(1, N1)
@@ -192,6 +197,16 @@ def gen_case(rng, tier):
     # anisotropic output pixels: the second grid axis is 2x or 1.5x the first (both no smaller than the pupil)
     du1 = str(Fraction(du0) * rng.choice([Fraction(1, 2), Fraction(2, 3)])) if aniso else du0
     geo = {'dx': dx, 'du': [du0, du1], 'z': rng.choice(['1', '2', '1/2', '4']), 'os': os_}
+    if rng.random() < 0.4:
+        # the same families at physical magnitudes (metres): wavelengths 4e-7..2e-6, output pixels of micrometres;
+        # tolerance-based branches in the code (isclose/allclose with an absolute tolerance) depend on the scale
+        du0 = Fraction(rng.choice(['5e-6', '1e-5', '1.5e-5', '2.5e-6']))
+        z = Fraction(rng.choice(['1', '10', '0.5', '2.5', '0.1']))
+        lam0 = Fraction(rng.choice(['4e-7', '5.5e-7', '6.328e-7', '1e-6', '2e-6']))
+        Nref = rng.randint(6, Nmax)
+        dxv = Fraction('%.3g' % float(lam0 * z * os_ / (Nref * du0)))
+        du1 = du0 * rng.choice([Fraction(1, 2), Fraction(2, 3)]) if aniso else du0
+        geo = {'dx': str(dxv), 'du': [str(du0), str(du1)], 'z': str(z), 'os': os_, 'units': 'SI'}
     nsteps = rng.choice([1, 2, 2, 3])
     for _ in range(50):
         steps = [gen_step(rng, geo, nmax, Nmax, aniso=aniso) for _ in range(nsteps)]
@@ -646,6 +661,9 @@ def oracle(c, impl):
         N = r['N']
         if N is None:
             return f'call {k}: neither the full-grid call nor scratch_shape works ({r.get("full_err")})'
+        n, m = pupil_dims(st)
+        if N[0] < n or N[1] < m:
+            continue        # pupil larger than the grid the implementation chose: outside the regime the property speaks about
         if r.get('full_err'):
             return f'call {k}: propagate_fft(shape=None) raised {r["full_err"]}'
         if iso and r.get('full_wl') is not None:
@@ -739,7 +757,7 @@ def classify(c):
                 tags.add('Nodd' if r['N'][0] % 2 else 'Neven')
     except Exception:
         pass
-    return f'{sc}/{len(c["steps"])}call/' + '+'.join(sorted(tags))
+    return ('SI/' if c['geo'].get('units') == 'SI' else '') + f'{sc}/{len(c["steps"])}call/' + '+'.join(sorted(tags))
 
 
 # ------------------------------------------------------------------ labelled tests that do not fit the case protocol
